@@ -1143,7 +1143,7 @@ class Interp:
         "initial": ("max", "min", "amax", "amin", "nanmax", "nanmin"),
         "axes": ("transpose",),
         "axis": ("sum", "cumsum", "max", "min", "amax", "amin", "nanmax", "nanmin", "any", "all", "expand_dims", "moveaxis", "diff", "take", "flip", "gradient",
-                 "concatenate", "stack", "squeeze", "argmax", "argmin", "mean", "prod", "count_nonzero", "diagonal", "swapaxes", "apply_along_axis", "cumprod", "tile", "repeat", "insert", "delete"),
+                 "concatenate", "stack", "squeeze", "argmax", "argmin", "mean", "prod", "count_nonzero", "diagonal", "swapaxes", "apply_along_axis", "cumprod", "tile", "repeat", "insert", "delete", "unique"),
     }
 
     def guard_kwargs(self, f, what):
